@@ -980,8 +980,17 @@ fn zoned_probe(r: &Report, t: &Tally, pair: &vf::zones::Pair, x: i128, cfgs: &[(
                 // input class N3: this civil day or the next one does not begin at
                 // 00:00 on the wall clock (its midnight falls in a gap), so
                 // "start + 1 day" is not the start of the next day
-                let late = |s: i128| (s + z.utoff_at((s / NS) as i64) as i128 * NS).rem_euclid(DAY_NS) != 0;
-                let class = if late(a) || late(b) { Some("Zoned::round(day)/day-or-next-day-starts-in-gap") } else { Some("Zoned::round(day)/value") };
+                // A day that begins right after a gap which itself began at 00:00
+                // is handled (start of day = compatible resolution of midnight).
+                // A gap that *straddles* midnight (began before 00:00, or skips
+                // the whole previous day) is its own input class: jiff resolves
+                // midnight with the compatible strategy, which lands later than
+                // the first instant of the day.
+                let straddles = |s: i128| {
+                    let wall = |t: i128| (t + z.utoff_at(t.div_euclid(NS) as i64) as i128 * NS).rem_euclid(DAY_NS);
+                    wall(s) != 0 && wall(s - 1) != DAY_NS - 1
+                };
+                let class = if straddles(a) || straddles(b) { Some("Zoned::round(day)/day-or-next-day-begins-after-gap-straddling-midnight") } else { Some("Zoned::round(day)/value") };
                 judge(r, t, "zoned", "Zoned", Leg::Legal, class, &case, got, Want::Ok(res));
             }
         }
